@@ -411,6 +411,9 @@ class Counter(LogicBlock):
             value: Value to add to the counter.
             kwargs: Additional arguments.
         """
+        if self._state is None:
+            # mode-based counter whose mode is not running
+            return
         evaluated_value = value.evaluate_or_none(kwargs)
         if evaluated_value is None:
             self.log.warning("Placeholder %s for counter add did not evaluate with args %s", value, kwargs)
@@ -430,6 +433,9 @@ class Counter(LogicBlock):
             value: Value to subtract from the counter.
             kwargs: Additional arguments.
         """
+        if self._state is None:
+            # mode-based counter whose mode is not running
+            return
         evaluated_value = value.evaluate_or_none(kwargs)
         if evaluated_value is None:
             self.log.warning("Placeholder %s for counter substract did not evaluate with args %s", value, kwargs)
@@ -449,6 +455,9 @@ class Counter(LogicBlock):
             value: Value to add to jump to.
             kwargs: Additional arguments.
         """
+        if self._state is None:
+            # mode-based counter whose mode is not running
+            return
         evaluated_value = value.evaluate_or_none(kwargs)
         if evaluated_value is None:
             self.log.warning("Placeholder %s for counter jump did not evaluate with args %s", value, kwargs)
